@@ -243,4 +243,35 @@ def mapListBody (f : List Nat) (pos : Nat) (left : Nat) : Iter Nat Bool :=
 
 def mapListLoop (f : List Nat) (pos size : Nat) := run (mapListBody f) (f.length + 1) pos size 0
 
+/-! ### regular expressions used by the parser modules
+
+The hand-audited list of pattern texts (as gen/loops.py prints them: non-ASCII and backslashes escaped by
+Python's `unicode_escape`) that are matched in time linear in the subject, each with the reason.
+`AgVerif.C35.regexes_linear` requires every pattern the translator finds in the working tree to be in this
+list and to pass the translator's syntactic test for catastrophic shapes. -/
+def auditedRegexes : List (String × String) := [
+  ("<dynamic:name>",
+    "caller-supplied pattern of an explicit lookup API (DEX.get_field/get_method/...), not on a parse path"),
+  ("<dynamic:regular_expressions>",
+    "caller-supplied pattern of DEX.get_regex_strings, not on a parse path"),
+  ("^[a-zA-Z0-9._-]*$",
+    "one starred character class between anchors: a single greedy scan, no choice point"),
+  ("[^a-zA-Z0-9._-]",
+    "a single character class (re.sub scans the string once)"),
+  ("^[ -\\ud7ff\\t\\n\\r\\ue000-\\ufffd\\U00010000-\\U0010ffff]*$",
+    "one starred character class between anchors: a single greedy scan"),
+  ("[^ -\\ud7ff\\t\\n\\r\\ue000-\\ufffd\\U00010000-\\U0010ffff]",
+    "a single character class"),
+  ("classes([0-9]*)\\\\.dex",
+    "literal prefix, one starred digit class, literal suffix whose first character is not a digit; fullmatch"),
+  ("classes([0-9]+)?\\\\.dex",
+    "optional group (at most once) around one digit run, followed by a non-digit literal; fullmatch"),
+  (" +",
+    "one repeated literal"),
+  ("<dynamic:deleted_files>",
+    "caller-supplied pattern of APK.new_zip (writer), not on a parse path"),
+  ("\\\\AMETA-INF/(?s:.)*\\\\.(DSA|EC|RSA)\\\\Z",
+    "anchored literal prefix, one greedy `.*`, then a literal '.' and three alternatives with distinct first letters before \\Z: each backtrack position of `.*` fails in constant time, linear overall")
+]
+
 end AgVerif.Loops
